@@ -745,6 +745,7 @@ class ConsumerMdib(mdibbase.MdibBase):
                                 )
                             else:
                                 old_container.update_from_other_container(descriptor_container)
+                                self.descriptions.update_object(old_container)  # indexed attributes may have changed
                             updated_descriptor_by_handle[descriptor_container.Handle] = descriptor_container
                             # if this is a context descriptor, delete all associated states that are not in
                             # state_containers list
